@@ -327,6 +327,9 @@ class Check:
     def finish(self, level: str, trusted_base: list[str], checker_cmd: str, explanation: str = ""):
         """decide, write evidence and replay, print the verdict lines, exit."""
         wall = self.elapsed()
+        allowed = ("exploration", "fault_enumeration", "model_checking", "proof", "translation_validation", "other")
+        if level not in allowed:           # the evidence schema's enum
+            level = "proof" if "proof" in level else "other"
         cov = dict(self.coverage)
         cov.setdefault("evaluations", 0)
         cov.setdefault("distinct_nontrivial", 0)
